@@ -79,6 +79,21 @@ def run(ctx):
                     r.ok("get: %s under its own membership test" % norm(n.value))
                 else:
                     r.fail(get, n, norm(n), "secondary index dereferenced without the matching membership test")
+    # a token that IS a command's name selects that command: the primary index is asked with the name as given, before
+    # any translation through the short-name / alias indices
+    gcfg = ctx.cfg(get)
+    gprm = [a for a in get.params if a != "self"]
+    prim_tests = [c for c in gcfg.conds() if isinstance(c.ast, ast.Compare) and isinstance(c.ast.ops[0], ast.In) and is_self_attr(c.ast.comparators[0], "_commands")
+                  and isinstance(c.ast.left, ast.Name) and c.ast.left.id in gprm]
+    if prim_tests:
+        for c in prim_tests:
+            x = c.ast.left.id
+            pre = [w for w in gcfg.writes(lambda t, x=x: t == x) if c.id in gcfg.reach([w.id])]
+            if pre:
+                r.fail(get, pre[0].ast, norm(pre[0].ast) + " before the name test", "CommandCollection.get translates its argument through a secondary index (%s) before testing it as a name: "
+                       "a token that is one command's name and another's alias selects the wrong command" % norm(pre[0].ast))
+            else:
+                r.ok("get: the name as given is tested against the primary index first")
     # who-may-touch
     priv = written | {"_commands"}
     for fi in p.all_functions():
@@ -319,6 +334,51 @@ def run(ctx):
                    "its parse error is hidden and the parent's handler runs")
         else:
             r.ok("%s: own result only when no default sub-command exists" % pds.short)
+
+    # ---------------------------------------------------------------- R12
+    r = ctx.rule("C03-R12", "TABLE", "the marker getters of a command config answer with the marker: a field that only ever holds a boolean (initialised "
+                 "with True/False, set from a boolean parameter) is returned as it is, not compared with None (`default(False)` must un-mark)", reference=4)
+    for ci in [c for c in p.classes.values() if c.module.name.startswith("clikit.api.config")]:
+        init_ = ci.methods.get("__init__")
+        if init_ is None:
+            continue
+        bool_fields = {t.attr for n in walk_no_nested(init_.node) if isinstance(n, ast.Assign) and isinstance(n.value, ast.Constant) and isinstance(n.value.value, bool) for t in n.targets if is_self_attr(t)}
+        # ... and fields that a setter fills with a boolean constant or a parameter whose default is one (False is then a value the field can hold)
+        for m2 in ci.methods.values():
+            bparams = {k for k, d in m2.defaults.items() if isinstance(d, ast.Constant) and isinstance(d.value, bool)}
+            for n in walk_no_nested(m2.node):
+                if isinstance(n, ast.Assign) and ((isinstance(n.value, ast.Constant) and isinstance(n.value.value, bool)) or (isinstance(n.value, ast.Name) and n.value.id in bparams)):
+                    bool_fields |= {t.attr for t in n.targets if is_self_attr(t)}
+        for name_, m_ in sorted(ci.methods.items()):
+            if not name_.startswith("is_"):
+                continue
+            for ret in q.returns(m_):
+                if ret.value is None:
+                    continue
+                flds = {x.attr for x in walk_no_nested(ret.value) if is_self_attr(x) and x.attr in bool_fields}
+                if not flds:
+                    continue
+                none_cmp = [x for x in walk_no_nested(ret.value) if isinstance(x, ast.Compare) and isinstance(x.ops[0], (ast.Is, ast.IsNot)) and isinstance(x.comparators[0], ast.Constant)
+                            and x.comparators[0].value is None and is_self_attr(x.left) and x.left.attr in bool_fields]
+                if none_cmp:
+                    r.fail(m_, ret, norm(ret), "%s.%s compares the boolean marker self.%s with None: it is true whatever was set, so un-marking (`%s(False)`) has no effect" %
+                           (ci.name, name_, none_cmp[0].left.attr, name_[3:]))
+                else:
+                    r.ok("%s.%s returns the marker %s" % (ci.name, name_, ", ".join(sorted(flds))))
+
+    # ---------------------------------------------------------------- R13
+    from .c06 import base_recursion_rule
+
+    r = ctx.rule("C03-R13", "SIBLING", "the expected path of command names of a deeply nested command is complete: a format asks its base format for the base's "
+                 "full listing (the base fall-through is recursive - no include_base=False on the call to the base)", reference=6)
+    base_recursion_rule(ctx, r)
+
+    # ---------------------------------------------------------------- R14
+    from .c17 import leniency_pair_rule
+
+    r = ctx.rule("C03-R14", "PAIR", "which default sub-command is selected ('first parsable') does not depend on an earlier help request: the leniency switched on "
+                 "for a command during help resolution is switched back on every exit (same rule as C17-R2)", reference=1)
+    leniency_pair_rule(ctx, r)
 
     # ---------------------------------------------------------------- R11
     r = ctx.rule("C03-R11", "EXC", "'first parsable default' is decided by the cannot-parse error alone: the handler around the trial parse "
